@@ -286,12 +286,16 @@ def unaryFloat : Builder := fun args =>
     | _ => unmodelledStage "float")
   | _ => errArgCount
 
+/-- `maxPrecision` of `stdlib/util.go`: larger constant precisions are a compile error (`<VALUE>`). -/
+def maxPrecision : Int := 1024
+
 def kfRound : Builder := fun args =>
   if args.length < 1 || args.length > 2 then errArgCount
   else match evalArgInt args 1 0 with
     | .error m => .error m
     | .ok none => errConst
-    | .ok (some _) =>
+    | .ok (some precision) =>
+      if precision > maxPrecision then errValue else
       match args with
       | a :: _ => ok (do
         let v ← a
@@ -314,7 +318,8 @@ def kfPercent : Builder := fun args =>
   else match evalArgInt args 1 1 with
     | .error m => .error m
     | .ok none => errConst
-    | .ok (some _) =>
+    | .ok (some decimals) =>
+      if decimals > maxPrecision then errValue else
       let lit : Comp FClass := .ret .valid
       let mm : Except String (Option (Comp FClass) × Option (Comp FClass)) :=
         match args with
